@@ -7,6 +7,7 @@ import Ptn.C12.NumMain
 import Ptn.C12.NumRank
 import Ptn.C12.NumNZ
 import Ptn.C12.General
+import Ptn.C12.ColsPos
 import Mathlib.LinearAlgebra.Matrix.Rank
 import Ptn.C01.Cut
 import Ptn.C01.Fill
@@ -641,6 +642,48 @@ theorem sge_numeric_cut_bond_eq_rank_partial {X Y Z : Type*} [AddCommMonoid X] [
   exact ⟨g, Mt, cu, cv, hg, hmvc, hrk,
     bond_eq_cover_list f M n hpos hrect hnum L A R h U V cu cv hcov hun hvn hul hvl⟩
 
+/-- **The reduced matrix keeps a column** (builder B71; discharges the OUTPUT hypothesis `0 < R.length`
+    of the B69 theorems by a hypothesis on the INPUT).  Every numeric rectangular `Γ` with a non-zero
+    entry: the returned `Op_r` has at least one row, i.e. `M'` has at least one column, and
+    `0 < rank Γ`.  (From the rank invariant: `rank M' = rank Γ > 0`, and a matrix without columns has
+    rank 0.)  Not covered: `Γ = 0` (then `rank Γ = 0`; that the model keeps a column of the zero
+    matrix is a statement about the deletion lists, not proved). -/
+theorem sge_numeric_keeps_column (M : Ptn.C13.EMat) (n : Nat) (hpos : 0 < M.length)
+    (hrect : Ptn.C13.Rect M n) (hnum : NumM M) (L : Ptn.C13.RMat) (A : Ptn.C13.EMat) (R : Ptn.C13.RMat)
+    (h : Ptn.C13.gaussianElimination M = .ok L A R) (hne : ∃ i j, nz M i j = true) :
+    0 < R.length ∧ 0 < (numMat M M.length n).rank :=
+  cols_pos_of_entry M n hpos hrect hnum L A R h hne
+
+/-- `sge_numeric_bond_eq_rank_general_partial` with `0 < R.length` replaced by "`Γ` is not the zero
+    matrix" (a hypothesis on the input).  Still missing for `sge_numeric_bond_eq_rank_general`: that
+    the model returns a `PivotLines` matrix for every numeric `Γ` (hypothesis `hs` on the output) - the
+    invariant of the last row pass + column pass when zero columns shift the pivots off the diagonal. -/
+theorem sge_numeric_bond_eq_rank_general_input_partial (M : Ptn.C13.EMat) (n : Nat) (hpos : 0 < M.length)
+    (hrect : Ptn.C13.Rect M n) (hnum : NumM M) (L : Ptn.C13.RMat) (A : Ptn.C13.EMat) (R : Ptn.C13.RMat)
+    (h : Ptn.C13.gaussianElimination M = .ok L A R) (hne : ∃ i j, nz M i j = true) (hs : PivotLines A) :
+    ∃ g Mt cu cv, Ptn.C14.mkGraph A.length R.length (suppEdges A) = some g ∧
+      Ptn.C14.minimumVertexCover g = .ok (Mt, cu, cv) ∧
+      (∀ p ∈ suppEdges A, p.1 ∈ cu ∨ p.2 ∈ cv) ∧
+      cu.length + cv.length = (numMat M M.length n).rank :=
+  sge_numeric_bond_eq_rank_general_partial M n hpos hrect hnum L A R h
+    (sge_numeric_keeps_column M n hpos hrect hnum L A R h hne).1 hs
+
+/-- `sge_numeric_cut_bond_eq_rank_partial` with `0 < R.length` replaced by "`Γ` is not the zero
+    matrix".  Missing: as above, `PivotLines M'` is a hypothesis on the output. -/
+theorem sge_numeric_cut_bond_eq_rank_input_partial {X Y Z : Type*} [AddCommMonoid X] [AddCommMonoid Y]
+    [AddCommMonoid Z] [Module ℚ X] [Module ℚ Y] [Module ℚ Z] (f : X →ₗ[ℚ] Y →ₗ[ℚ] Z)
+    (M : Ptn.C13.EMat) (n : Nat) (hpos : 0 < M.length)
+    (hrect : Ptn.C13.Rect M n) (hnum : NumM M) (L : Ptn.C13.RMat) (A : Ptn.C13.EMat) (R : Ptn.C13.RMat)
+    (h : Ptn.C13.gaussianElimination M = .ok L A R) (hne : ∃ i j, nz M i j = true) (hs : PivotLines A)
+    (U : Fin M.length → X) (V : Fin n → Y) :
+    ∃ g Mt cu cv, Ptn.C14.mkGraph A.length R.length (suppEdges A) = some g ∧
+      Ptn.C14.minimumVertexCover g = .ok (Mt, cu, cv) ∧
+      cu.length + cv.length = (numMat M M.length n).rank ∧
+      ∃ (a : Fin (cu.length + cv.length) → X) (b : Fin (cu.length + cv.length) → Y),
+        ∑ k, f (a k) (b k) = ∑ u, ∑ v, numMat M M.length n u v • f (U u) (V v) :=
+  sge_numeric_cut_bond_eq_rank_partial f M n hpos hrect hnum L A R h
+    (sge_numeric_keeps_column M n hpos hrect hnum L A R h hne).1 hs U V
+
 /-! Non-vacuity of the hypotheses above. -/
 
 -- `cover_of_fully_reduced`, `sge_numeric_bond_eq_rank_partial`: a rank-2 numeric matrix whose reduced
@@ -715,5 +758,10 @@ example : MFullyReduced (Matrix.of ![![(0 : ℚ), 2, 0], ![0, 0, 5]]) := by
 example : (∀ p ∈ suppEdges [[.num (-1), .num 0, .num 0, .num 0], [.num (-1), .num 0, .num 0, .num 0],
        [.num 0, .num 0, .num (-1), .num 0]], p.1 ∈ ([] : List Nat) ∨ p.2 ∈ [0, 2]) ∧
     ([0, 2] : List Nat).Nodup ∧ ∀ v ∈ ([0, 2] : List Nat), v < 4 := by decide +kernel
+
+-- `sge_numeric_keeps_column`, `sge_numeric_bond_eq_rank_general_input_partial`,
+-- `sge_numeric_cut_bond_eq_rank_input_partial`: `exPivot` (two zero columns) has a non-zero entry; the
+-- other hypotheses for it: `sge_numeric_pivot_lines_witness`
+example : ∃ i j, nz exPivot i j = true := ⟨0, 2, by decide +kernel⟩
 
 end Ptn.C12
